@@ -23,7 +23,22 @@ type LintHit struct {
 }
 
 // AllLints runs every control-flow lint on f.
+// ReviewedLint is consulted for every hit: a hit of kind in f that was read and found intended is dropped
+// (set by package props, which owns the reviewed table and knows the reference name of f).
+var ReviewedLint = func(kind string, f *Func) bool { return false }
+
 func AllLints(f *Func) []LintHit {
+	all := allLints(f)
+	var out []LintHit
+	for _, h := range all {
+		if !ReviewedLint(h.Kind, f) {
+			out = append(out, h)
+		}
+	}
+	return out
+}
+
+func allLints(f *Func) []LintHit {
 	var out []LintHit
 	pos := func(p token.Pos) string { return f.Pkg.Fset.Position(p).String() }
 	for _, sf := range StaleFlags(f) {
@@ -62,6 +77,10 @@ func AllLints(f *Func) []LintHit {
 	for _, g := range GuardVarMismatches(f) {
 		out = append(out, LintHit{"guardvar", fmt.Sprintf("%s#guard(%s/%s)", f.Name, g.Tested, g.By), g.If.Pos(),
 			fmt.Sprintf("%s is defined by the preceding statement and used in the body, but the guard tests %s, which the body never uses", g.By, g.Tested)})
+	}
+	for _, se := range SwallowedErrors(f) {
+		out = append(out, LintHit{"swallow", fmt.Sprintf("%s#swallow(%s)", f.Name, se.Err.Name()), se.Ret.Pos(),
+			fmt.Sprintf("the function returns nil in the branch where %s is non-nil and never looks at it: the failure is reported as success (a stop sentinel or a real error is dropped)", se.Err.Name())})
 	}
 	for _, r := range RawAfterNormaliseds(f) {
 		out = append(out, LintHit{"rawname", fmt.Sprintf("%s#raw(%s→%s)", f.Name, r.Raw, r.Use), r.Call.Pos(),
@@ -1700,6 +1719,64 @@ func UseAfterPuts(f *Func) []UseAfterPut {
 					}
 					return true
 				})
+			}
+		}
+		return true
+	})
+	return out
+}
+
+// SwallowedError: inside the branch where an error variable is known to be non-nil, the function returns nil in
+// its error position: the failure is reported as success.
+type SwallowedError struct {
+	Ret *ast.ReturnStmt
+	Err types.Object
+}
+
+// SwallowedErrors finds the pattern in f (functions whose last result is an error).
+func SwallowedErrors(f *Func) []SwallowedError {
+	info := f.Pkg.TypesInfo
+	sig := f.Obj.Type().(*types.Signature)
+	if sig.Results().Len() == 0 || !types.Identical(sig.Results().At(sig.Results().Len()-1).Type(), types.Universe.Lookup("error").Type()) {
+		return nil
+	}
+	var out []SwallowedError
+	var g *CFG
+	WalkNoFuncLit(f.Decl.Body, func(n ast.Node) bool {
+		rs, ok := n.(*ast.ReturnStmt)
+		if !ok || len(rs.Results) != sig.Results().Len() || !IsNilIdent(info, rs.Results[len(rs.Results)-1]) {
+			return true
+		}
+		if g == nil {
+			g = NewCFG(info, f.Decl.Body)
+		}
+		facts, ok := g.FactsFor(rs)
+		if !ok {
+			return true
+		}
+		for _, fc := range facts {
+			x, notNil, ok := NilCompare(info, fc.Cond)
+			if !ok || notNil != fc.Holds {
+				continue
+			}
+			o := ObjOf(info, x)
+			if o == nil || !types.Identical(o.Type(), types.Universe.Lookup("error").Type()) {
+				continue
+			}
+			// the error was handled if it is used (logged, recorded, compared) inside the branch before the return
+			used := false
+			if is, isIf := g.Parent[fc.Cond].(*ast.IfStmt); isIf {
+				ast.Inspect(is.Body, func(m ast.Node) bool {
+					if id, ok := m.(*ast.Ident); ok && info.Uses[id] == o && id.Pos() < rs.Pos() {
+						used = true
+					}
+					return true
+				})
+			} else {
+				used = true // not the plain `if err != nil {` shape: not judged
+			}
+			if !used {
+				out = append(out, SwallowedError{rs, o})
 			}
 		}
 		return true
